@@ -15,10 +15,15 @@
 (*   of the request universe of the state is a step; the properties are    *)
 (*   invariants on qr.  QExport prints the request plan of every root for  *)
 (*   the harness (J2).  The servers are read-only: no action changes st.   *)
+(* AskMode = "wwalk" The initial states are roots as well; a paging client *)
+(*   walks a listing (WWStart / WWNext / WWEnd) WHILE the chain moves:     *)
+(*   WWWrite commits any successful transaction of MC_Chain's ActionSet    *)
+(*   between two pages (at most MaxWrites per walk).  QWWalkOK judges      *)
+(*   P_WalkStable on every finished walk; QWExport prints its schedule.    *)
 (***************************************************************************)
 EXTENDS MC_Chain, ChainQuery
 
-CONSTANTS AskMode, MaxPages
+CONSTANTS AskMode, MaxPages, MaxWrites
 
 VARIABLES qr, ses, rt, kx      \* rt: index of the root; kx = MkK(st), carried along so that it is computed once per state
 qvars == <<st, last, hist, qr, ses, rt, kx>>
@@ -31,7 +36,7 @@ Serve(X, q) == Realize(X, q.kind, QOp(X, q))
 Page(X, q, pg) == [pg |-> pg, r |-> Realize(X, q.kind, ListOp(X, q.kind, q.f, pg))]
 
 \* roots: action paths as TLC printed them (JSON arrays become sequences; auditor lists and key lists are sets)
-Roots == IF AskMode = "full" THEN ndJsonDeserialize("roots.ndjson") ELSE <<>>
+Roots == IF AskMode # "gen" THEN ndJsonDeserialize("roots.ndjson") ELSE <<>>
 SeqSet(s)  == {s[i] : i \in DOMAIN s}
 LoadGrp(g) == [g EXCEPT !.allOf = SeqSet(@), !.anyOf = SeqSet(@)]
 LoadAct(a) == CASE a.act = "CreateDeployment" -> [a EXCEPT !.groups = [i \in DOMAIN a.groups |-> LoadGrp(a.groups[i])]]
@@ -45,9 +50,9 @@ QInit ==
   /\ hist = <<>>
   /\ qr = QNone
   /\ ses = SIdle
-  /\ IF AskMode = "full" THEN \E i \in 1..Len(Roots) : rt = i /\ st = StateOf(Roots[i].p)
+  /\ IF AskMode # "gen" THEN \E i \in 1..Len(Roots) : rt = i /\ st = StateOf(Roots[i].p)
                          ELSE rt = 0 /\ st = Genesis
-  /\ kx = IF AskMode = "full" THEN MkK(st) ELSE <<>>
+  /\ kx = IF AskMode # "gen" THEN MkK(st) ELSE <<>>
 
 Quiet == qr = QNone /\ ~ses.on
 
@@ -69,19 +74,46 @@ WalkStart ==
 
 LastPage == ses.pages[Len(ses.pages)]
 WalkNext ==
-  /\ ses.on /\ LastPage.r.err = "" /\ LastPage.r.next # NoKey /\ Len(ses.pages) < MaxPages
+  /\ AskMode = "full" /\ ses.on /\ LastPage.r.err = "" /\ LastPage.r.next # NoKey /\ Len(ses.pages) < MaxPages
   /\ ses' = [ses EXCEPT !.pages = Append(@, Page(MCX(st), ses.q, NextPg(LastPage.r.next, ses.q.limit, ses.q.ct)))]
   /\ UNCHANGED <<st, last, hist, qr, rt, kx>>
 WalkEnd ==
-  /\ ses.on /\ (LastPage.r.err # "" \/ LastPage.r.next = NoKey \/ Len(ses.pages) >= MaxPages)
+  /\ AskMode = "full" /\ ses.on /\ (LastPage.r.err # "" \/ LastPage.r.next = NoKey \/ Len(ses.pages) >= MaxPages)
   /\ qr' = [q |-> ses.q, r |-> [pages |-> ses.pages, truncated |-> LastPage.r.err = "" /\ LastPage.r.next # NoKey]]
   /\ ses' = SIdle
   /\ UNCHANGED <<st, last, hist, rt, kx>>
 
-\* the client drops the answer (so that the next request starts from the same quiet state)
-Forget == qr # QNone /\ qr' = QNone /\ UNCHANGED <<st, last, hist, ses, rt, kx>>
+(* a walk while the chain moves: ses = [on, q, pages, at (the state every page was answered in), acts (the writes, each *)
+(* with the number of pages answered before it)]                                                                      *)
+WWStart ==
+  /\ AskMode = "wwalk" /\ Quiet
+  /\ LET X == MCX(st) IN
+     \E q \in WWalks(X) :
+       ses' = [on |-> TRUE, q |-> q, pages |-> <<Page(X, q, FirstPg(q.limit, q.ct))>>, at |-> <<st>>, acts |-> <<>>]
+  /\ UNCHANGED <<st, last, hist, qr, rt, kx>>
+WWWrite ==
+  /\ AskMode = "wwalk" /\ ses.on /\ Len(ses.acts) < MaxWrites /\ LastPage.r.err = "" /\ LastPage.r.next # NoKey
+  /\ \E a \in ActionSet :
+       LET r == Apply(st, a) IN
+       /\ r.ok /\ ~r.bound /\ r.S # st
+       /\ st' = r.S
+       /\ kx' = MkK(r.S)
+       /\ ses' = [ses EXCEPT !.acts = Append(@, [after |-> Len(ses.pages), a |-> a])]
+  /\ UNCHANGED <<last, hist, qr, rt>>
+WWNext ==
+  /\ AskMode = "wwalk" /\ ses.on /\ LastPage.r.err = "" /\ LastPage.r.next # NoKey /\ Len(ses.pages) < MaxPages
+  /\ ses' = [ses EXCEPT !.pages = Append(@, Page(MCX(st), ses.q, NextPg(LastPage.r.next, ses.q.limit, ses.q.ct))), !.at = Append(@, st)]
+  /\ UNCHANGED <<st, last, hist, qr, rt, kx>>
+WWEnd ==
+  /\ AskMode = "wwalk" /\ ses.on /\ (LastPage.r.err # "" \/ LastPage.r.next = NoKey \/ Len(ses.pages) >= MaxPages)
+  /\ qr' = [q |-> ses.q, r |-> [pages |-> ses.pages, at |-> ses.at, acts |-> ses.acts, truncated |-> LastPage.r.err = "" /\ LastPage.r.next # NoKey]]
+  /\ ses' = SIdle
+  /\ UNCHANGED <<st, last, hist, rt, kx>>
 
-QNext == ChainStep \/ Ask \/ WalkStart \/ WalkNext \/ WalkEnd \/ Forget
+\* the client drops the answer (so that the next request starts from the same quiet state)
+Forget == AskMode = "full" /\ qr # QNone /\ qr' = QNone /\ UNCHANGED <<st, last, hist, ses, rt, kx>>
+
+QNext == ChainStep \/ Ask \/ WalkStart \/ WalkNext \/ WalkEnd \/ Forget \/ WWStart \/ WWWrite \/ WWNext \/ WWEnd
 QSpec == QInit /\ [][QNext]_qvars
 QView == <<st, qr, ses, rt>>
 
@@ -97,6 +129,13 @@ QWalkOK ==
          LET lq == [op |-> "list", kind |-> qr.q.kind, f |-> qr.q.f, pg |-> qr.r.pages[i].pg] IN
          \A j \in 1..Len(ListProps) : ListProp(ListProps[j], X, lq, qr.r.pages[i].r)
     /\ P_WalkComplete(X, qr.q, qr.r)
+\* a walk while the chain moves (the contexts of the states the pages were answered in are rebuilt here)
+QWWalkOK ==
+  qr.q.op = "wwalk" =>
+    LET w == qr.r
+        xs == FoldLeft(LAMBDA acc, i : Append(acc, MkX(w.at[i], MCD(w.at[i]))), <<>>, [i \in 1..Len(w.at) |-> i]) IN
+    /\ WalkChained(qr.q, w)
+    /\ P_WalkStable(qr.q, xs, w)
 \* the servers are read-only: once requests are asked (AskMode = "full": every step is a request step) the store never changes
 QReadOnly == [][AskMode = "full" => st' = st]_qvars
 \* a walk makes progress: the pages of a session never outnumber the records of the store by more than one
@@ -113,6 +152,9 @@ QExport ==
   (AskMode = "full" /\ Quiet) =>
      LET X == MCX(st) IN
      PrintT(<<"QNODE", rt, ToJson([k \in ListKinds |-> Plan(X, k)]), ToJson([k \in GetKinds |-> GetCoords(X, k)])>>)
+
+\* J2: the schedule of every finished walk under writes (the requests and the transactions between them)
+QWExport == qr.q.op = "wwalk" => PrintT(<<"QWALK", rt, ToJson(qr.q), ToJson(qr.r.acts), Len(qr.r.pages)>>)
 
 \* ranks used by the model configurations: the two orders deliberately disagree
 StrRankDef  == [n \in Parties \cup {""} |-> CASE n = "" -> 0 [] n = "t1" -> 2 [] n = "t2" -> 1 [] n = "p1" -> 1 [] n = "p2" -> 2 [] n = "p3" -> 3
